@@ -371,6 +371,19 @@ class SymBool(object):
     def __hash__(self):
         return hash(bool(self))
 
+    # sum(mask) counts the true entries
+    def _as_int(self):
+        return SymInt(z3.If(self.t, z3.IntVal(1), z3.IntVal(0)))
+
+    def __add__(self, o):
+        return self._as_int() + o
+
+    def __radd__(self, o):
+        return o + self._as_int()
+
+    def __int__(self):
+        return 1 if bool(self) else 0
+
     def __repr__(self):
         return 'SymBool(%s)' % self.t
 
